@@ -3,6 +3,7 @@
 //! note: PendingOutboundPayment state machine on the real 8-variant enum: terminal states are never contradicted, nothing is lost in a transition, completion tracking is exact
 //! trusted: axiom_u8_32_key_model: [u8;32] hashes and compares lawfully (vstd obeys_key_model); new_hash_set() is an external_body wrapper for LDK's hash_tables::new_hash_set (returns an empty set); foreign payload types (StaleExpiration, Retry, RouteParametersConfig, RetryableInvoiceRequest, RouteParameters, InvoiceRequest, StaticInvoice, PaymentAttempts, PaymentParameters, PaidBolt12Invoice, Duration) are opaque external_body structs; Path is a stub {v, f} whose final_value_msat()/fee_msat() are external_body pure accessors
 //! trusted: rule R7 splits or-pattern match arms into one arm per alternative
+//! trusted: R15 (deep slice): remove_stale_payments runs a retain closure under two mutexes; the unit extracts the tick / keep statement of the Fulfilled arm verbatim as a function of (no_remaining_entries, the tick counter); the scan of pending events that computes no_remaining_entries is dropped and not claimed
 //! assume: callers keep the representation invariant pending_amt_msat >= value of every in-flight path (and pending_fee_msat >= its fee); remove()/insert() are not called on pre-HTLC states (LDK's debug_assert!(false) arms)
 use vstd::prelude::*;
 use std::collections::HashSet;
@@ -190,5 +191,32 @@ impl PendingOutboundPayment {
 //@end
 }
 
+
+// ---- how long a completed payment's id stays reserved (deep R15 slice of OutboundPayments::remove_stale_payments) ----
+//@const lightning/src/ln/outbound_payment.rs IDEMPOTENCY_TIMEOUT_TICKS
+//@extract lightning/src/ln/outbound_payment.rs :: impl OutboundPayments :: fn remove_stale_payments
+//@slice R15
+    let mut no_remaining_entries = session_privs.is_empty(); if no_remaining_entries { $scan:any } $tick:any },
+//@with
+    fn fulfilled_payment_is_kept(no_remaining_entries: bool, timer_ticks_without_htlcs: &mut u8) -> bool {
+        $tick
+    }
+//@ret kept
+//@requires
+    *old(timer_ticks_without_htlcs) <= IDEMPOTENCY_TIMEOUT_TICKS,
+//@ensures P C03 a-completed-payments-id-is-forgotten-only-after-more-than-IDEMPOTENCY_TIMEOUT_TICKS-consecutive-ticks-with-no-htlc-and-no-event-left
+    kept <==> (!no_remaining_entries || *old(timer_ticks_without_htlcs) < IDEMPOTENCY_TIMEOUT_TICKS),
+    !no_remaining_entries ==> *final(timer_ticks_without_htlcs) == 0,
+    no_remaining_entries ==> *final(timer_ticks_without_htlcs) == *old(timer_ticks_without_htlcs) + 1,
+    kept ==> *final(timer_ticks_without_htlcs) <= IDEMPOTENCY_TIMEOUT_TICKS,
+//@mutant id_forgotten_one_tick_early
+    *timer_ticks_without_htlcs <= IDEMPOTENCY_TIMEOUT_TICKS
+//@with
+    *timer_ticks_without_htlcs < IDEMPOTENCY_TIMEOUT_TICKS
+//@mutant counter_not_reset_while_entries_remain
+    *timer_ticks_without_htlcs = 0;
+//@with
+    
+//@end
 }
 fn main() {}
